@@ -197,7 +197,9 @@ impl System for IndSys {
 						continue;
 					}
 					if !q.contains(*o) {
-						return Step::Violation(Failure::new(format!("{name}/value#{i}/differs-from-formula"), format!("value #{i} = {o:?}, formula {:?} ± {:.3e} (off by {:.3e})", q.v, q.r, (o - q.v).abs())));
+						let class = n.rf.class();
+						let class = if class.is_empty() { String::new() } else { format!("/{class}") };
+						return Step::Violation(Failure::new(format!("{name}/value#{i}/differs-from-formula{class}"), format!("value #{i} = {o:?}, formula {:?} ± {:.3e} (off by {:.3e})", q.v, q.r, (o - q.v).abs())));
 					}
 				}
 			}
